@@ -29,7 +29,11 @@ What mirrors what (all under /repo/libs/core/include/fcppt/container/):
 | `RV.swap`, `moveCtor`, `moveAssign` | `swap`, `object(object&&)` (`impl(impl&&)` + `reset_pointers`), `operator=(object&&)` (= swap) |
 | `Buf.*` | buffer/object_impl.hpp; `appendFrom`, `appendFromOpt`, `readFrom`, `toRawVector` the free functions of the same name |
 | `readChars` | libs/core/src/io/read_chars.cpp |
-| `equalV`, `lessV` | raw_vector/comparison.hpp |
+| `equalV`, `lessV`, `neV`, `gtV`, `geV`, `leV` | raw_vector/comparison.hpp (the four derived operators exactly as defined there) |
+| `RV.refOff`, `readRef`, `writeRef` | `operator[]` (= `*(begin() + i)`), `front()` (= `*begin()`), `back()` (= `*std::prev(end())`), `data()[i]`, const and non-const |
+| `Mid.self`, `insertSelf` | `insert(pos, begin() + a, begin() + b)`: forward `insert_impl` with `_left`/`_right` pointing into the vector's own block |
+| `readFromOpt`, `Buf.index` | buffer/read_from_opt.hpp, `buffer::object::operator[]` |
+| `DynArr.*`, `dynRoundTrip` | dynamic_array_impl.hpp |
 
 The growth policy `new_capacity` is the parameter `g` (`g newSize oldCap`); the theorems only assume
 `newSize ≤ g newSize oldCap`.  The driver instantiates `g` with `growth` (= the code: `max n (2*cap)`).
